@@ -431,10 +431,29 @@ def run(ctx, B):
         # ---- explicit insertion into the built-in collection changes nothing else
         P = Proc(B, cfg)
         k0 = P.key()
-        ins = P.X.op("builtin_insert", "s", ["Zz_inserted"])[0][0]
+        # three insertions: a name that sorts last, one that sorts first, one in the middle (the array is kept sorted: what is done 'to the new entry' after the
+        # sort must be done to the right slot).  The op overwrites and releases the caller's own object afterwards; the stored crystals must be independent of it.
+        INS = ["Zz_inserted", "Aa_inserted", "Mm_inserted"]
+        insr = P.X.op("builtin_insert", "s", INS)[0]
+        ins = insr[0]
         k1 = P.key()
-        if ins["v0"] != 1 or k1[0] != k0[0] or k1[2:4] != k0[2:4]:
-            ctx.violation("%s|builtin-insert-side-effect" % cfg, "Crystal_AddCrystal into the built-in collection: rv=%r, library static storage / locale / cwd changed: %r -> %r" % (ins["v0"], k0, k1))
+        if not all(v == 1 for v in insr["v0"]) or k1[0] != k0[0] or k1[2:4] != k0[2:4]:
+            ctx.violation("%s|builtin-insert-side-effect" % cfg, "Crystal_AddCrystal into the built-in collection: rv=%r, library static storage / locale / cwd changed: %r -> %r" % (insr["v0"].tolist(), k0, k1))
+
+        def stored():
+            rr, ls = P.X.op("Crystal_GetCrystal", "s", INS + ["Si"])
+            d = {}
+            for l in ls:
+                f = l.split("\t")
+                if f[0].isdigit():
+                    d[int(f[0])] = f[2:]          # without index and name
+            return d
+        st0 = stored()
+        want_atoms = st0.get(3, [None] * 8)[7:]
+        for q, nm in enumerate(INS):
+            if q not in st0 or st0[q][7:] != want_atoms or st0[q][:7] != st0.get(0, [None])[:7]:
+                ctx.violation("%s|after-builtin-insert|stored-crystal-differs|%s" % (cfg, nm), "the crystal inserted as %r (a renamed copy of Si, a scaled by 1.01) reads back as %r; atoms of Si: %r" % (
+                    nm, st0.get(q), want_atoms), dict(cfg=cfg, ops=[dict(kind="op", name="builtin_insert", sig="s", args=[nm]), dict(kind="op", name="Crystal_GetCrystal", sig="s", args=[nm])]))
         after_ins = []
         for i in range(n):
             o = P.run(ops[i]); after_ins.append(o)
@@ -443,11 +462,11 @@ def run(ctx, B):
                               dict(cfg=cfg, ops=[ops[i]]))
         # ... and XRayInit / the deprecated setters AFTER the insertion change nothing either (results with or without XRayInit; the inserted crystal stays, the built-in ones stay)
         lst0 = P.X.op("CrystalList", "i", [1])[1]
-        got0 = P.X.op("Crystal_GetCrystal", "s", ["Zz_inserted", "TlAP", "AlphaAlumina", "Si"])[0]["flags"].tolist()
+        got0 = P.X.op("Crystal_GetCrystal", "s", INS + ["TlAP", "AlphaAlumina", "Si"])[0]["flags"].tolist()
         for extra in (dict(kind="op", name="XRayInit", sig="i", args=[0]), dict(kind="op", name="deprecated", sig="ii", args=[0, 1]), dict(kind="op", name="deprecated", sig="ii", args=[2, 1])):
             P.run(extra)
             lst1 = P.X.op("CrystalList", "i", [1])[1]
-            got1 = P.X.op("Crystal_GetCrystal", "s", ["Zz_inserted", "TlAP", "AlphaAlumina", "Si"])[0]["flags"].tolist()
+            got1 = P.X.op("Crystal_GetCrystal", "s", INS + ["TlAP", "AlphaAlumina", "Si"])[0]["flags"].tolist()
             if lst1 != lst0 or got1 != got0:
                 ctx.violation("%s|after-builtin-insert|%s-changes-the-collection" % (cfg, describe(extra)), "after inserting a crystal into the built-in collection, %s changes the collection: list %r -> %r, lookups %r -> %r" % (
                     describe(extra), lst0[0][-60:] if lst0 else None, lst1[0][-60:] if lst1 else None, got0, got1), dict(cfg=cfg, ops=[extra]))
@@ -457,6 +476,9 @@ def run(ctx, B):
                     ctx.violation("%s|after-builtin-insert|%s|then|%s" % (cfg, extra["name"], ops[i]["name"]), "after inserting a crystal into the built-in collection and calling %s, %s returns %r instead of %r" % (
                         describe(extra), describe(ops[i]), o[:6], after_ins[i][:6]), dict(cfg=cfg, ops=[extra, ops[i]]))
                     break
+        st1 = stored()
+        if st1 != st0:
+            ctx.violation("%s|after-builtin-insert|stored-crystal-changes" % cfg, "the inserted crystals read back differently after %d further calls: %r -> %r" % (4 * n, st0, st1), dict(cfg=cfg, ops=[]))
         ctx.add(evaluations=4 * n); total_trans += 4 * n
         P.close()
         total_trans += order_invariance(ctx, B, cfg, 20000 if quick else 60000)
